@@ -188,9 +188,37 @@ def scn_functions(T, case):
                 T.all([T.same(res.evaluations.objectives[r, :], O[b][r, :]) if not fl[r] else T.all([T.np.isnan(res.evaluations.objectives[r, j]) for j in range(J)]) for r in range(R)]))
 
 
+# ------------------------------------------------------------------------------------ user-domain results (shared contract)
+def cases_user_results(tier):
+    from contracts import backtransform
+
+    return backtransform.cases(tier)
+
+
+def scn_user_results(T, case):
+    from contracts import backtransform
+
+    backtransform.scenario(T, case, "C01")
+
+
+# ------------------------------------------------------------------------------------ what the plan steps hand on (shared contract)
+def cases_steps(tier):
+    from contracts import stepcontract
+
+    return stepcontract.cases(tier)
+
+
+def scn_steps(T, case):
+    from contracts import stepcontract
+
+    stepcontract.scenario(T, case, "C01")
+
+
 SCENARIOS = [
     Scenario("calculate_functions", scn_functions, cases_functions, {"quick": 2, "thorough": 10}),
     Scenario("calculate_functions_stddev_given_weights", scn_functions, cases_stddev, {"quick": 5, "thorough": 20}),
+    Scenario("user_domain_results", scn_user_results, cases_user_results, {"quick": 3, "thorough": 20}),
+    Scenario("plan_steps_hand_over", scn_steps, cases_steps, {"quick": 1, "thorough": 2}),
 ]
 
 MANIFEST = {
